@@ -162,6 +162,12 @@ fn replay() {
         }
     }
     }
+    // the 95%% chi-square gate of the box filter (5 degrees of freedom): inverted cost 0 beyond it
+    for d in [0.0f32, 5.0, 11.0, 11.069, 11.071, 11.125, 11.5, 12.0, 12.5, 12.6, 13.0, 50.0] {
+        let want = if d > 11.070 { 0.0 } else { 100.0 - d };
+        assert_eq!(Universal2DBoxKalmanFilter::calculate_cost(d, true), want, "inverted cost at squared Mahalanobis distance {}", d);
+        assert_eq!(Universal2DBoxKalmanFilter::calculate_cost(d, false), 100.0 - want, "direct cost at {}", d);
+    }
     // postprocess_distances drops the pairs that failed the gate, keeps the order
     let m = SortMetric::new(PositionalMetricType::IoU(0.3), 0.05);
     let items = vec![ObservationMetricOk::<Universal2DBox>::new(1, 10, Some(0.5), None), ObservationMetricOk::new(2, 11, None, None), ObservationMetricOk::new(3, 12, Some(0.25), None)];
